@@ -45,7 +45,7 @@ pub broadcast axiom fn axiom_char_obeys() ensures #[trigger] <char as PartialOrd
 pub broadcast axiom fn axiom_char_cmp(a: char, b: char)
     ensures #[trigger] PartialOrdSpec::partial_cmp_spec(&a, &b) == (if a < b { Some(std::cmp::Ordering::Less) } else if a == b { Some(std::cmp::Ordering::Equal) } else { Some(std::cmp::Ordering::Greater) });
 }
-broadcast use {vstd::string::group_string_axioms, vfmt::axiom_wlog_string, pl::group_pre, chs::axiom_char_obeys, chs::axiom_char_cmp, chk::axiom_char_key_model, vstd::std_specs::hash::group_hash_axioms};
+broadcast use {jt::axiom_im_decreases, vstd::string::group_string_axioms, vfmt::axiom_wlog_string, pl::group_pre, chs::axiom_char_obeys, chs::axiom_char_cmp, chk::axiom_char_key_model, vstd::std_specs::hash::group_hash_axioms};
 
 // ---- the documented JSON string escaping (RFC 8259 §7 + --utf8-strings), per character ----
 pub open spec fn esc(ch: char, utf8: bool) -> Seq<char> {
@@ -166,9 +166,109 @@ pub trait Print<W: Write> {
 //@@ endfn
 }
 
-// the structural printers (indentation, commas): not yet under contract — what they append is left uninterpreted
-pub uninterp spec fn json_array_text(o: JsonOutputOptions, v: Seq<JsonValue>) -> Seq<char>;
-pub uninterp spec fn json_object_text(o: JsonOutputOptions, e: Seq<(String, JsonValue)>) -> Seq<char>;
+// ---- the structural printers: what an array / object looks like in each style (read off the documentation of --style:
+// consise = no white space, one-line = ", " and ": ", pretty = one member per line, two spaces per nesting level) ----
+pub open spec fn spaces(n: nat) -> Seq<char> decreases n { if n == 0 { Seq::empty() } else { spaces((n - 1) as nat).add(seq![' ', ' ']) } }
+pub open spec fn indent_text(o: JsonOutputOptions, n: nat) -> Seq<char> { match o.style { JsonStyle::Pretty => seq!['\n'].add(spaces(n)), _ => Seq::empty() } }
+pub open spec fn comma_text(o: JsonOutputOptions) -> Seq<char> { match o.style { JsonStyle::OneLine => seq![',', ' '], _ => seq![','] } }
+pub open spec fn colon_text(o: JsonOutputOptions) -> Seq<char> { match o.style { JsonStyle::Consise => seq![':'], _ => seq![':', ' '] } }
+pub open spec fn scalar_text(o: JsonOutputOptions, v: JsonValue) -> Seq<char> {
+    match v {
+        JsonValue::Null => "null"@, JsonValue::Boolean(b) => if b { "true"@ } else { "false"@ },
+        JsonValue::Number(n) => match n { NumberValue::Float(x) => dec_f64(x), NumberValue::Negative(x) => dec_i64(x), NumberValue::Positive(x) => dec_u64(x) },
+        JsonValue::String(t) => json_string_text(t@, o.utf8_strings),
+        _ => Seq::empty(),
+    }
+}
+#[verifier::opaque]
+pub open spec fn val_text(o: JsonOutputOptions, v: JsonValue, ind: nat) -> Seq<char>
+    decreases v
+{
+    match v { JsonValue::Array(a) => arr_text(o, a@, ind), JsonValue::Object(m) => obj_text(o, m.entries(), ind), _ => scalar_text(o, v) }
+}
+// the first k items, each on its own indented line (pretty), a comma after every item but the last of the whole array
+#[verifier::opaque]
+pub open spec fn arr_items(o: JsonOutputOptions, s: Seq<JsonValue>, ind: nat, k: nat) -> Seq<char>
+    decreases s, 0nat, k
+{
+    if k == 0 || k > s.len() { Seq::empty() } else {
+        arr_items(o, s, ind, (k - 1) as nat).add(indent_text(o, ind)).add(val_text(o, s[k - 1], ind)).add(if k != s.len() { comma_text(o) } else { Seq::empty() })
+    }
+}
+#[verifier::opaque]
+pub open spec fn arr_text(o: JsonOutputOptions, s: Seq<JsonValue>, ind: nat) -> Seq<char>
+    decreases s, 1nat, 0nat
+{
+    if s.len() == 0 { seq!['[', ']'] } else { seq!['['].add(arr_items(o, s, ind + 1, s.len())).add(indent_text(o, ind)).add(seq![']']) }
+}
+#[verifier::opaque]
+pub open spec fn obj_items(o: JsonOutputOptions, e: Seq<(String, JsonValue)>, ind: nat, k: nat) -> Seq<char>
+    decreases e, 0nat, k
+{
+    if k == 0 || k > e.len() { Seq::empty() } else {
+        obj_items(o, e, ind, (k - 1) as nat).add(indent_text(o, ind)).add(json_string_text(e[k - 1].0@, o.utf8_strings)).add(colon_text(o))
+            .add(val_text(o, e[k - 1].1, ind)).add(if k != e.len() { comma_text(o) } else { Seq::empty() })
+    }
+}
+#[verifier::opaque]
+pub open spec fn obj_text(o: JsonOutputOptions, e: Seq<(String, JsonValue)>, ind: nat) -> Seq<char>
+    decreases e, 1nat, 0nat
+{
+    if e.len() == 0 { seq!['{', '}'] } else { seq!['{'].add(obj_items(o, e, ind + 1, e.len())).add(indent_text(o, ind)).add(seq!['}']) }
+}
+// nesting depth (bounds the indentation counter)
+pub open spec fn depth(v: JsonValue) -> nat
+    decreases v
+{
+    match v { JsonValue::Array(a) => 1 + depth_seq(a@), JsonValue::Object(m) => 1 + depth_ent(m.entries()), _ => 0 }
+}
+pub open spec fn depth_seq(s: Seq<JsonValue>) -> nat
+    decreases s
+{
+    if s.len() == 0 { 0 } else { let a = depth(s[0]); let b = depth_seq(s.subrange(1, s.len() as int)); if a > b { a } else { b } }
+}
+pub open spec fn depth_ent(s: Seq<(String, JsonValue)>) -> nat
+    decreases s
+{
+    if s.len() == 0 { 0 } else { let a = depth(s[0].1); let b = depth_ent(s.subrange(1, s.len() as int)); if a > b { a } else { b } }
+}
+pub proof fn lemma_depth_seq(s: Seq<JsonValue>, i: int)
+    requires 0 <= i < s.len(),
+    ensures depth(s[i]) <= depth_seq(s),
+    decreases s.len(),
+{
+    if i > 0 { let t = s.subrange(1, s.len() as int); lemma_depth_seq(t, i - 1); assert(t[i - 1] == s[i]); }
+}
+pub proof fn lemma_depth_ent(s: Seq<(String, JsonValue)>, i: int)
+    requires 0 <= i < s.len(),
+    ensures depth(s[i].1) <= depth_ent(s),
+    decreases s.len(),
+{
+    if i > 0 { let t = s.subrange(1, s.len() as int); lemma_depth_ent(t, i - 1); assert(t[i - 1] == s[i]); }
+}
+// unfolding lemmas for the (opaque) text functions
+pub proof fn lemma_val_text(o: JsonOutputOptions, v: JsonValue, ind: nat)
+    ensures val_text(o, v, ind) == (match v { JsonValue::Array(a) => arr_text(o, a@, ind), JsonValue::Object(m) => obj_text(o, m.entries(), ind), _ => scalar_text(o, v) }),
+{ reveal(val_text); reveal(arr_text); reveal(arr_items); reveal(obj_text); reveal(obj_items); }
+pub proof fn lemma_arr_items_step(o: JsonOutputOptions, s: Seq<JsonValue>, ind: nat, k: nat)
+    requires k < s.len(),
+    ensures arr_items(o, s, ind, k + 1) == arr_items(o, s, ind, k).add(indent_text(o, ind)).add(val_text(o, s[k as int], ind)).add(if k + 1 != s.len() { comma_text(o) } else { Seq::<char>::empty() }),
+{ reveal(val_text); reveal(arr_text); reveal(arr_items); reveal(obj_text); reveal(obj_items); reveal_with_fuel(arr_items, 2); }
+pub proof fn lemma_arr_items_zero(o: JsonOutputOptions, s: Seq<JsonValue>, ind: nat) ensures arr_items(o, s, ind, 0) == Seq::<char>::empty() { reveal(val_text); reveal(arr_text); reveal(arr_items); reveal(obj_text); reveal(obj_items); }
+pub proof fn lemma_arr_text(o: JsonOutputOptions, s: Seq<JsonValue>, ind: nat)
+    ensures arr_text(o, s, ind) == (if s.len() == 0 { seq!['[', ']'] } else { seq!['['].add(arr_items(o, s, ind + 1, s.len())).add(indent_text(o, ind)).add(seq![']']) }),
+{ reveal(val_text); reveal(arr_text); reveal(arr_items); reveal(obj_text); reveal(obj_items); }
+pub proof fn lemma_obj_items_step(o: JsonOutputOptions, e: Seq<(String, JsonValue)>, ind: nat, k: nat)
+    requires k < e.len(),
+    ensures obj_items(o, e, ind, k + 1) == obj_items(o, e, ind, k).add(indent_text(o, ind)).add(json_string_text(e[k as int].0@, o.utf8_strings)).add(colon_text(o))
+            .add(val_text(o, e[k as int].1, ind)).add(if k + 1 != e.len() { comma_text(o) } else { Seq::<char>::empty() }),
+{ reveal(val_text); reveal(arr_text); reveal(arr_items); reveal(obj_text); reveal(obj_items); reveal_with_fuel(obj_items, 2); }
+pub proof fn lemma_obj_items_zero(o: JsonOutputOptions, e: Seq<(String, JsonValue)>, ind: nat) ensures obj_items(o, e, ind, 0) == Seq::<char>::empty() { reveal(val_text); reveal(arr_text); reveal(arr_items); reveal(obj_text); reveal(obj_items); }
+pub proof fn lemma_obj_text(o: JsonOutputOptions, e: Seq<(String, JsonValue)>, ind: nat)
+    ensures obj_text(o, e, ind) == (if e.len() == 0 { seq!['{', '}'] } else { seq!['{'].add(obj_items(o, e, ind + 1, e.len())).add(indent_text(o, ind)).add(seq!['}']) }),
+{ reveal(val_text); reveal(arr_text); reveal(arr_items); reveal(obj_text); reveal(obj_items); }
+pub open spec fn json_array_text(o: JsonOutputOptions, v: Seq<JsonValue>) -> Seq<char> { arr_text(o, v, 0) }
+pub open spec fn json_object_text(o: JsonOutputOptions, e: Seq<(String, JsonValue)>) -> Seq<char> { obj_text(o, e, 0) }
 
 impl JsonOutputOptions {
     pub closed spec fn utf8(&self) -> bool { self.utf8_strings }
@@ -250,6 +350,164 @@ impl<W: Write> Print<W> for JsonOutputOptions {
     fn print_object(&self, f: &mut W, value: &IndexMap<String, JsonValue>) -> FmtResult { unimplemented!() }
     #[verifier::external_body]
     fn print_array(&self, f: &mut W, value: &[JsonValue]) -> FmtResult { unimplemented!() }
+}
+
+// ---- the structural printers themselves (real bodies). print_array / print_object of the trait impl above are the one-line
+// delegations `self.print_*_with_indent(f, value, 0)`: left as trusted declarations, because verifying them in this file closes a
+// cycle trait impl -> inherent fn -> trait impl that Verus rejects. ----
+impl JsonOutputOptions {
+//@@ fn jsonprint.insert_indent = src/output_style.rs :: impl JsonOutputOptions :: fn insert_indent
+//@@ safety C02
+//@@ rewrite write_macros
+//@@ ret r
+//@@ header
+        ensures appended(old(f), final(f), indent_text(*self, indent as nat), r), // @obl PRINT.indent : C02
+//@@ body-start
+        let ghost w0 = wlog(f);
+        proof { assert(w0.add(Seq::<char>::empty()) =~= w0); }
+//@@ after-loop 1
+                proof { assert(wlog(f) =~= w0.add(seq!['\n'].add(spaces(indent as nat)))); }
+//@@ loop 1 iter it
+                    invariant
+                        w0 == wlog(old(f)), is_pre(w0, wlog(f)), wlog(f) == w0.add(seq!['\n']).add(spaces(it.index@ as nat)), 0 <= it.index@ <= indent,
+                        it.seq().len() == indent,
+//@@ loop-start 1
+                    proof { reveal_strlit("  "); assert("  "@ =~= seq![' ', ' ']); }
+//@@ before "for _ in 1..=indent {"
+                proof { reveal_strlit("\n"); assert("\n"@ =~= seq!['\n']); assert(w0.add(seq!['\n']).add(spaces(0)) =~= w0.add(seq!['\n'])); }
+//@@ endfn
+//@@ fn jsonprint.insert_comma = src/output_style.rs :: impl JsonOutputOptions :: fn insert_comma
+//@@ safety C02
+//@@ rewrite write_macros
+//@@ ret r
+//@@ header
+        ensures appended(old(f), final(f), comma_text(*self), r), // @obl PRINT.comma : C02
+//@@ body-start
+        proof { reveal_strlit(", "); reveal_strlit(","); assert(", "@ =~= seq![',', ' ']); assert(","@ =~= seq![',']); }
+//@@ endfn
+//@@ fn jsonprint.print_object_with_indent = src/output_style.rs :: impl JsonOutputOptions :: fn print_object_with_indent
+//@@ safety C02
+//@@ attr
+#[verifier::spinoff_prover]
+#[verifier::rlimit(400)]
+//@@ rewrite write_macros enumerate
+//@@ ret r
+//@@ header
+        requires indent + depth_ent(value.entries()) < usize::MAX,
+        ensures appended(old(f), final(f), obj_text(*self, value.entries(), indent as nat), r), // @obl PRINT.object : C02
+        decreases value.entries(),
+//@@ body-start
+        let ghost w0 = wlog(f);
+        let ghost e = value.entries();
+        let ghost o = *self;
+        let ghost ind = indent as nat;
+        proof {
+            reveal_strlit("{}"); reveal_strlit("{"); reveal_strlit("}"); reveal_strlit(":"); reveal_strlit(" ");
+            assert("{}"@ =~= seq!['{', '}']); assert("{"@ =~= seq!['{']); assert("}"@ =~= seq!['}']);
+            lemma_obj_text(o, e, ind); lemma_obj_items_zero(o, e, ind + 1);
+            assert(w0.add(seq!['{']).add(Seq::<char>::empty()) =~= w0.add(seq!['{']));
+        }
+//@@ loop 1 iter it
+            invariant
+                w0 == wlog(old(f)), is_pre(w0, wlog(f)), o == *self, ind == indent as nat, size == e.len(), size > 0,
+                indent + depth_ent(e) < usize::MAX,
+                it.seq().len() == e.len(), 0 <= it.index@ <= e.len(),
+                forall|j: int| 0 <= j < it.seq().len() ==> (#[trigger] it.seq()[j]).0 == j && *it.seq()[j].1 == e[j],
+                wlog(f) == w0.add(seq!['{']).add(obj_items(o, e, ind + 1, it.index@ as nat)),
+//@@ loop-start 1
+            let ghost wi = wlog(f);
+            let ghost k = it.index@;
+            proof {
+                lemma_depth_ent(e, k);
+                lemma_val_text(o, e[k].1, ind + 1);
+                lemma_obj_items_step(o, e, ind + 1, k as nat);
+                assert(*element == e[k]);
+                assert(decreases_to!(e => e[k]));
+                reveal_strlit(":"); reveal_strlit(" ");
+                assert(":"@ =~= seq![':']); assert(" "@ =~= seq![' ']);
+            }
+//@@ before "match value {"
+            let ghost wk = wlog(f);
+            proof {
+                assert(*key == e[k].0 && *value == e[k].1);
+                assert(decreases_to!(e[k] => e[k].1));
+                assert(wk =~= wi.add(indent_text(o, ind + 1)).add(json_string_text(e[k].0@, o.utf8_strings)).add(colon_text(o)));
+            }
+//@@ before "if index != size - 1 {"
+            let ghost wv = wlog(f);
+            proof { assert(wv == wk.add(val_text(o, e[k].1, ind + 1))); }
+//@@ loop-end 1
+            proof {
+                let c = if k + 1 != e.len() { comma_text(o) } else { Seq::<char>::empty() };
+                assert(wlog(f) =~= wv.add(c));
+                assert(wlog(f) =~= w0.add(seq!['{']).add(obj_items(o, e, ind + 1, (k + 1) as nat)));
+            }
+//@@ after-loop 1
+        proof { assert(wlog(f) == w0.add(seq!['{']).add(obj_items(o, e, ind + 1, e.len()))); }
+        let ghost wl = wlog(f);
+//@@ before "write!(f, "}}")"
+        proof {
+            lemma_obj_text(o, e, ind);
+            assert(wlog(f) == wl.add(indent_text(o, ind)));
+            assert(w0.add(obj_text(o, e, ind)) =~= wl.add(indent_text(o, ind)).add(seq!['}']));
+        }
+//@@ endfn
+//@@ fn jsonprint.print_array_with_indent = src/output_style.rs :: impl JsonOutputOptions :: fn print_array_with_indent
+//@@ safety C02
+//@@ rewrite write_macros enumerate
+//@@ ret r
+//@@ header
+        // the indentation counter cannot overflow: nesting depth + indent stays below 2^64 (the entry points call with indent 0)
+        requires indent + depth_seq(value@) < usize::MAX,
+        ensures appended(old(f), final(f), arr_text(*self, value@, indent as nat), r), // @obl PRINT.array : C02
+        decreases value@,
+//@@ body-start
+        let ghost w0 = wlog(f);
+        let ghost s = value@;
+        let ghost o = *self;
+        let ghost ind = indent as nat;
+        proof {
+            reveal_strlit("[]"); reveal_strlit("["); reveal_strlit("]");
+            assert("[]"@ =~= seq!['[', ']']); assert("["@ =~= seq!['[']); assert("]"@ =~= seq![']']);
+            lemma_arr_text(o, s, ind); lemma_arr_items_zero(o, s, ind + 1);
+            assert(w0.add(seq!['[']).add(Seq::<char>::empty()) =~= w0.add(seq!['[']));
+        }
+//@@ loop 1 iter it
+            invariant
+                w0 == wlog(old(f)), is_pre(w0, wlog(f)), o == *self, ind == indent as nat, size == s.len(), size > 0,
+                indent + depth_seq(s) < usize::MAX,
+                it.seq().len() == s.len(), 0 <= it.index@ <= s.len(),
+                forall|j: int| 0 <= j < it.seq().len() ==> (#[trigger] it.seq()[j]).0 == j && *it.seq()[j].1 == s[j],
+                wlog(f) == w0.add(seq!['[']).add(arr_items(o, s, ind + 1, it.index@ as nat)),
+//@@ loop-start 1
+            let ghost wi = wlog(f);
+            let ghost k = it.index@;
+            proof {
+                lemma_depth_seq(s, k);
+                assert(*value == s[k]);
+                assert(decreases_to!(s => s[k]));
+                lemma_val_text(o, s[k], ind + 1);
+                lemma_arr_items_step(o, s, ind + 1, k as nat);
+            }
+//@@ before "if index != size - 1 {"
+            let ghost wv = wlog(f);
+            proof { assert(wv == wi.add(indent_text(o, ind + 1)).add(val_text(o, s[k], ind + 1))); }
+//@@ loop-end 1
+            proof {
+                let c = if k + 1 != s.len() { comma_text(o) } else { Seq::<char>::empty() };
+                assert(wlog(f) =~= wv.add(c));
+                assert(wlog(f) =~= w0.add(seq!['[']).add(arr_items(o, s, ind + 1, (k + 1) as nat)));
+            }
+//@@ after-loop 1
+        proof { assert(wlog(f) == w0.add(seq!['[']).add(arr_items(o, s, ind + 1, s.len()))); }
+        let ghost wl = wlog(f);
+//@@ before "write!(f, "]")"
+        proof {
+            lemma_arr_text(o, s, ind);
+            assert(wlog(f) == wl.add(indent_text(o, ind)));
+            assert(w0.add(arr_text(o, s, ind)) =~= wl.add(indent_text(o, ind)).add(seq![']']));
+        }
+//@@ endfn
 }
 
 // the #[from] conversions thiserror derives on ProcessError (trusted declarations)
